@@ -23,8 +23,30 @@ pub trait Block { spec fn basefee_spec(&self) -> u64; spec fn beneficiary_spec(&
     fn beneficiary(&self) -> (a: Address) ensures a == self.beneficiary_spec(); }
 pub trait Transaction { spec fn egp(&self, basefee: u128) -> u128;
     fn effective_gas_price(&self, basefee: u128) -> (p: u128) ensures p == self.egp(basefee); }
+pub struct EvmState { pub p: u8 }
+impl EvmState {
+    pub uninterp spec fn has(&self, a: Address) -> bool;
+    #[verifier::external_body] pub fn contains_key(&self, a: &Address) -> (b: bool) ensures b == self.has(*a) { unimplemented!() }
+}
+pub trait JournalTr { type State;
+    spec fn state_s(&self) -> Self::State;
+    fn evm_state(&self) -> (s: &Self::State) ensures *s == self.state_s(); }
+pub struct FrameResult { pub gas_: Gas }
+impl FrameResult { pub fn gas(&self) -> (g: &Gas) ensures *g == self.gas_ { &self.gas_ } }
+/// std Cell: `set` is call-permission guarded (DESIGN §3.4) and leaves an issued fact
+#[verifier::external_body] #[verifier::reject_recursive_types(T)] pub struct Cell<T> { p: core::marker::PhantomData<T> }
+impl<T> Cell<T> {
+    pub uninterp spec fn may_set(&self, v: T) -> bool;
+    pub uninterp spec fn was_set(&self, v: T) -> bool;
+    #[verifier::external_body] pub fn set(&self, v: T) requires self.may_set(v), ensures self.was_set(v) { unimplemented!() }   //@ID cell_set.P1 : C07
+}
+pub trait Database { type Error; }
 pub trait ContextTr {
-    type Cfg: Cfg; type Block: Block; type Tx: Transaction;
+    type Cfg: Cfg; type Block: Block; type Tx: Transaction; type Journal: JournalTr; type Db: Database;
+    /// ghost: how often upstream's reward hook has been run on this context
+    spec fn hook_calls(&self) -> nat;
+    spec fn journal_s(&self) -> Self::Journal;
+    fn journal(&self) -> (r: &Self::Journal) ensures *r == self.journal_s();
     spec fn cfg_s(&self) -> Self::Cfg; spec fn block_s(&self) -> Self::Block; spec fn tx_s(&self) -> Self::Tx;
     fn cfg(&self) -> (r: &Self::Cfg) ensures *r == self.cfg_s();
     fn block(&self) -> (r: &Self::Block) ensures *r == self.block_s();
@@ -38,4 +60,25 @@ pub open spec fn reward_amount(disabled: bool, london: bool, basefee: u64, egp: 
         let u: nat = if used >= reservoir { (used - reservoir) as nat } else { 0 };
         Some(p * u)
     }
+}
+
+pub trait EvmTr { type Context: ContextTr;
+    spec fn ctx_s(&self) -> Self::Context;
+    fn ctx_ref(&self) -> (c: &Self::Context) ensures *c == self.ctx_s();
+    fn ctx(&mut self) -> (c: &mut Self::Context) ensures *c == old(self).ctx_s(), final(self).ctx_s() == *final(c); }
+pub trait EvmTrError<EVM: EvmTr>: From<<<EVM::Context as ContextTr>::Db as Database>::Error> {}
+pub mod post_execution {
+    use super::*;
+    /// upstream revm-handler hook (assumed): one more hook run on this context; everything the reward
+    /// formula reads is unchanged
+    #[verifier::external_body]
+    pub fn reward_beneficiary<CTX: ContextTr>(context: &mut CTX, gas: &Gas) -> (r: Result<(), <CTX::Db as Database>::Error>)
+        ensures final(context).hook_calls() == old(context).hook_calls() + 1,
+                final(context).cfg_s() == old(context).cfg_s(), final(context).block_s() == old(context).block_s(), final(context).tx_s() == old(context).tx_s()
+    { unimplemented!() }
+}
+/// what the formula yields on this context (None: fee charging disabled)
+spec fn ctx_reward<CTX: ContextTr>(c: CTX, g: Gas) -> Option<nat> {
+    let bf = c.block_s().basefee_spec() as u128;
+    reward_amount(c.cfg_s().fee_disabled(), c.cfg_s().spec_id().enabled(SpecId::LONDON), c.block_s().basefee_spec(), c.tx_s().egp(bf), g.used_, g.reservoir_)
 }
